@@ -657,6 +657,12 @@ Definition C05_ok (q : oreq) (ds : list oview) (o : oobs) : bool :=
       existsb (fun d => o_clauses q d t1 t2) ds && (off =? clock_offset t0 t1 t2 t3)
   end.
 
+(* at the level of a whole call (MeasureClockOffsetIP / MeasureClockOffsetSCION): a measurement
+   is reported (nil error) only if at least one datagram was accepted during the call - in
+   particular not by a call that made no exchange at all *)
+Definition C05_call_needs_datagram (reported : bool) (accepted : Z) : bool :=
+  if reported then 1 <=? accepted else true.
+
 (* the oracle's own history: after an exchange that reported an error the basis
    of the last successful measurement stays what it was; after a success it is
    the receive timestamp field of the delivered datagram(s) that meet the
